@@ -854,14 +854,18 @@ func (env *rEnv) call(n *rNode) Value {
 	case "itercount":
 		// itercount(): iterations completed before the current one (value of the loop's unit-step counter at the head
 		// of this iteration, minus its initial value)
-		if env.headVars == nil {
-			return env.fail("itercount() outside a loop body clause")
-		}
-		v, ok := env.headVars["itercount$"]
-		if !ok {
+		// in a body clause: iterations completed before this one (head of the iteration); in an invariant: iterations
+		// completed so far (the state the invariant is stated in)
+		if env.headVars != nil && !env.invClause {
+			if v, ok := env.headVars["itercount$"]; ok {
+				return v
+			}
 			return env.fail("itercount(): the loop does not have exactly one unit-step counter")
 		}
-		return v
+		if v, ok := env.vars["itercount$"]; ok {
+			return v
+		}
+		return env.fail("itercount(): the loop does not have exactly one unit-step counter")
 	case "nilmap":
 		// nilmap(x): the Go map x denotes (a map value or an interface holding one) is a nil map; an interface holding a
 		// nil map is itself not nil, so `x != nil` does not say this
